@@ -297,6 +297,13 @@ func (b *BMC) rakp3(rx *Rx) {
 	}
 	rx.RAKP3 = r3
 	s := b.Sessions[r3.SIDC]
+	if s != nil && s.State == "active" && len(s.InSeqs) == 0 && r3.Status == 0 && bytes.Equal(s.RAKP.RAKP3Code(s.Kuid), r3.Code) {
+		// a retransmitted RAKP3 whose RAKP4 was lost: answer again
+		rx.Sess = s
+		r4 := &ref.RAKP4{Tag: r3.Tag, SIDM: s.ConsoleID, ICV: s.RAKP.RAKP4ICV(s.SIK)}
+		rx.Replies = append(rx.Replies, b.plainReply(ref.PTRAKP4, r4.Bytes()))
+		return
+	}
 	if s == nil || s.State != "rakp1" {
 		rx.Replies = append(rx.Replies, b.plainReply(ref.PTRAKP4, (&ref.RAKP4{Tag: r3.Tag, Status: 0x02}).Bytes()))
 		return
